@@ -1,25 +1,17 @@
-(** C08 — which steps can panic; runs; the race of finding F22; monotonicity of generations. *)
+(** C08 — no step panics under the invariants; runs; monotonicity of generations. *)
 From Coq Require Import Arith List Bool Lia Permutation.
 From KV Require Import Base.Outcome C08.Model C08.ProofsBase C08.ProofsInv.
 Import ListNotations.
-
-(** ** the race (F22): the gameplay thread's drain observes the unused-ring empty while the audio
-    thread holds a payload it has removed from the arena (slot already free) and not yet pushed *)
-Definition racy (l : label) (s : state) : Prop :=
-  l = G_drain_done /\ (exists k, st_g s = GReserved k) /\ st_unused s = [] /\ st_inflight s <> None.
-
-Fixpoint race_free (cf : cfg) (sched : list label) (s : state) : Prop :=
-  match sched with
-  | [] => True
-  | l :: rest => ~ racy l s /\ (forall s', step cf l s = Ok s' -> race_free cf rest s')
-  end.
 
 (** ** progress *)
 
 Lemma g_reserve_ok cf s : Inv cf s -> exists s', g_reserve cf s = Ok s'.
 Proof.
   intro I. unfold g_reserve. destruct (st_g s); eauto.
-  unfold ctl_try_reserve. destruct (i_free _ _ I) as (fl & Hch & _ & _).
+  unfold res_try_reserve, ctl_capacity.
+  destruct (length (cslots (st_ctl s)) =? 0) eqn:Ez; [cbn; eauto|].
+  apply Nat.eqb_neq in Ez. rewrite (i_clen _ _ I) in Ez.
+  unfold ctl_try_reserve. destruct (i_free _ _ I ltac:(lia)) as (fl & Hch & _ & _).
   destruct fl as [|h r]; cbn [chain] in Hch.
   - rewrite Hch. cbn. eauto.
   - destruct Hch as (-> & Hh & _). rewrite (nth_error_lt _ _ dC) by auto. cbn. eauto.
@@ -53,7 +45,7 @@ Lemma a_remove_spec cf s k rest :
   Inv cf s -> st_a s = ARemoving (k :: rest) -> st_inflight s = None ->
   kidx k < cap cf /\
   exists p, present (st_ar s) k /\ adata (asl s (kidx k)) = Some p /\
-            a_remove cf s = Ok (if selfref cf && ring_is_full (cap cf) (st_unused s)
+            a_remove cf s = Ok (if selfref cf && ring_is_full (unused_cap cf) (st_unused s)
                                 then set_a s AAdding
                                 else if is_marked s p then removed_state cf s k p rest
                                      else set_a s (ARemoving rest)).
@@ -70,7 +62,7 @@ Proof.
   2:{ exfalso. apply (i_occ _ _ I) in Hocc; auto. }
   exists p. split; auto. split; auto.
   unfold a_remove. rewrite Ea, Ef.
-  destruct (selfref cf && ring_is_full (cap cf) (st_unused s)); auto.
+  destruct (selfref cf && ring_is_full (unused_cap cf) (st_unused s)); auto.
   unfold arena_get. rewrite (nth_error_lt _ _ dA) by lia.
   rewrite <- Hgen, Nat.eqb_refl, Ed. cbn [obind].
   destruct (is_marked s p); auto.
@@ -95,14 +87,15 @@ Lemma a_push_cases cf s :
   (exists s', a_push cf s = Ok s') \/ a_push cf s = Panic QueueFull.
 Proof.
   unfold a_push. destruct (st_inflight s); eauto.
-  destruct (ring_push (cap cf) (st_unused s) n); eauto.
+  destruct (ring_push (unused_cap cf) (st_unused s) n); eauto.
 Qed.
 
 Lemma a_push_ok cf s : QInv cf s -> exists s', a_push cf s = Ok s'.
 Proof.
   intro Q. unfold a_push. destruct (st_inflight s) as [p|] eqn:Ef; eauto.
   unfold QInv in Q. rewrite Ef in Q. cbn [infl length] in Q.
-  unfold ring_push, ring_is_full. destruct (cap cf <=? length (st_unused s)) eqn:E; eauto.
+  unfold ring_push, ring_is_full, unused_cap.
+  destruct (S (cap cf) <=? length (st_unused s)) eqn:E; eauto.
   apply Nat.leb_le in E. lia.
 Qed.
 
@@ -148,8 +141,8 @@ Proof.
   - destruct (a_add_spec _ _ _ _ _ I Ea Eq) as (_ & _ & _ & ->). eauto.
 Qed.
 
-(** under the structural invariant alone, the ONLY step that can fail is the push into the
-    unused-ring, and it can only fail with "unused resource producer is full" *)
+(** under the structural invariant alone, the only step that could fail is the push into the
+    unused-ring; the queue bound [QInv] excludes that too ([step_ok]) *)
 Theorem step_cases cf l s :
   Inv cf s ->
   (exists s', step cf l s = Ok s' /\ Inv cf s') \/ (l = A_push /\ step cf l s = Panic QueueFull).
@@ -169,21 +162,21 @@ Proof.
   destruct H as [[s' H]|H]; auto. left. exists s'. split; auto. eapply inv_step; eauto.
 Qed.
 
-(** ** the queue bound is preserved by every step that is not the race *)
+(** ** the queue bound is preserved by every step *)
 Lemma qinv_step cf l s s' :
-  Inv cf s -> QInv cf s -> ~ racy l s -> step cf l s = Ok s' -> QInv cf s'.
+  Inv cf s -> QInv cf s -> step cf l s = Ok s' -> QInv cf s'.
 Proof.
-  intros I Q NR H. unfold QInv in *. destruct l; cbn [step] in H.
+  intros I Q H. unfold QInv in *. destruct l; cbn [step] in H.
   - unfold g_reserve in H. destruct (st_g s) eqn:Eg; try (inversion H; subst; rewrite Eg; exact Q).
-    destruct (ctl_try_reserve (st_ctl s)) as [[|]| |]; cbn in H; inversion H; subst; cbn; auto.
+    destruct (res_try_reserve (st_ctl s)) as [[|]| |]; cbn in H; inversion H; subst; cbn; auto.
     destruct (prebuild cf); cbn; rewrite ?Eg; auto.
   - unfold g_drain_one in H. destruct (st_g s) eqn:Eg, (st_unused s) eqn:Eu; inversion H; subst;
       cbn; rewrite ?Eg, ?Eu; cbn [length] in *; auto; lia.
   - unfold g_drain_done in H.
     destruct (st_g s) eqn:Eg, (st_unused s) eqn:Eu; inversion H; subst; cbn; rewrite ?Eg, ?Eu; auto.
-    destruct (st_inflight s) eqn:Ef.
-    { exfalso. apply NR. repeat split; eauto. congruence. }
-    pose proof (owned_bound _ _ I) as Hb. rewrite owned_length, Eg in Hb. cbn in *. lia.
+    (* the drain saw the ring empty; at most one payload is in flight *)
+    pose proof (owned_bound _ _ I) as Hb. rewrite owned_length, Eg in Hb.
+    destruct (st_inflight s); cbn in *; lia.
   - unfold g_push in H. destruct (st_g s) eqn:Eg; try (inversion H; subst; rewrite Eg; exact Q).
     unfold ring_push in H. destruct (ring_is_full (cap cf) (st_newq s)); inversion H; subst.
     cbn in *. rewrite app_length. cbn. lia.
@@ -195,14 +188,14 @@ Proof.
       try (unfold a_remove in H; rewrite Ea, ?Ef in H; inversion H; subst; cbn; rewrite ?Ef; auto; fail).
     destruct (a_remove_spec _ _ _ _ I Ea Ef) as (_ & p & [Hocc _] & _ & E). rewrite E in H.
     inversion H; subst; clear H.
-    destruct (selfref cf && ring_is_full (cap cf) (st_unused s)); [cbn; now rewrite Ef|].
+    destruct (selfref cf && ring_is_full (unused_cap cf) (st_unused s)); [cbn; now rewrite Ef|].
     destruct (is_marked s p); [|cbn; now rewrite Ef].
     pose proof (i_part _ _ I) as Hpart. unfold owned in Hpart.
     apply NoDup_app_iff in Hpart as (NDocc & _ & _).
     pose proof (remove_length_NoDup _ _ NDocc Hocc) as Hlen.
     cbn in *. lia.
   - unfold a_push in H. destruct (st_inflight s) eqn:Ef; [|inversion H; subst; now rewrite Ef].
-    unfold ring_push in H. destruct (ring_is_full (cap cf) (st_unused s)); inversion H; subst.
+    unfold ring_push in H. destruct (ring_is_full (unused_cap cf) (st_unused s)); inversion H; subst.
     cbn in *. rewrite app_length. cbn. lia.
   - destruct (st_a s) eqn:Ea;
       try (unfold a_add in H; rewrite Ea in H; inversion H; subst; auto; fail).
@@ -216,9 +209,9 @@ Lemma qinv_init cf : QInv cf (init cf).
 Proof. unfold QInv, init; cbn. lia. Qed.
 
 Theorem step_ok cf l s :
-  Inv cf s -> QInv cf s -> ~ racy l s -> exists s', step cf l s = Ok s' /\ Inv cf s' /\ QInv cf s'.
+  Inv cf s -> QInv cf s -> exists s', step cf l s = Ok s' /\ Inv cf s' /\ QInv cf s'.
 Proof.
-  intros I Q NR. destruct (step_cases cf l s I) as [(s' & H & I')|[-> H]].
+  intros I Q. destruct (step_cases cf l s I) as [(s' & H & I')|[-> H]].
   - exists s'. split; [auto|]. split; [auto|]. apply (qinv_step cf l s s'); auto.
   - exfalso. cbn [step] in H. destruct (a_push_ok cf s Q) as [s' E]. congruence.
 Qed.
@@ -233,19 +226,19 @@ Proof.
 Qed.
 
 Theorem run_ok cf sched s :
-  Inv cf s -> QInv cf s -> race_free cf sched s ->
+  Inv cf s -> QInv cf s ->
   exists s', run cf sched s = Ok s' /\ Inv cf s' /\ QInv cf s'.
 Proof.
-  revert s. induction sched as [|l rest IH]; intros s I Q RF; cbn [run].
+  revert s. induction sched as [|l rest IH]; intros s I Q; cbn [run].
   - eauto.
-  - destruct RF as [NR RF]. destruct (step_ok cf l s I Q NR) as (s1 & E & I1 & Q1).
+  - destruct (step_ok cf l s I Q) as (s1 & E & I1 & Q1).
     rewrite E. cbn [obind]. apply IH; auto.
 Qed.
 
 Lemma run_qinv cf sched s s' :
-  Inv cf s -> QInv cf s -> race_free cf sched s -> run cf sched s = Ok s' -> QInv cf s'.
+  Inv cf s -> QInv cf s -> run cf sched s = Ok s' -> QInv cf s'.
 Proof.
-  intros I Q RF H. destruct (run_ok cf sched s I Q RF) as (s2 & E & _ & Q2). congruence.
+  intros I Q H. destruct (run_ok cf sched s I Q) as (s2 & E & _ & Q2). congruence.
 Qed.
 
 Lemma run_app cf a b s s2 :
@@ -270,15 +263,14 @@ Proof.
     apply (IH s1 s'); [eapply inv_step; eauto|eapply Hstep; eauto|exact H].
 Qed.
 
-(** the same along race-free runs, with the queue bound available *)
+(** the same with the queue bound available *)
 Lemma run_preserves_q cf (P : state -> Prop) :
   (forall l s s', Inv cf s -> QInv cf s -> P s -> step cf l s = Ok s' -> P s') ->
-  forall sched s s', Inv cf s -> QInv cf s -> race_free cf sched s -> P s ->
-                     run cf sched s = Ok s' -> P s'.
+  forall sched s s', Inv cf s -> QInv cf s -> P s -> run cf sched s = Ok s' -> P s'.
 Proof.
-  intros Hstep sched. induction sched as [|l rest IH]; intros s s' I Q RF HP H; cbn [run] in H.
+  intros Hstep sched. induction sched as [|l rest IH]; intros s s' I Q HP H; cbn [run] in H.
   - now inversion H; subst.
-  - destruct RF as [NR RF]. destruct (step_ok cf l s I Q NR) as (s1 & E & I1 & Q1).
+  - destruct (step_ok cf l s I Q) as (s1 & E & I1 & Q1).
     rewrite E in H. cbn [obind] in H. eapply IH; eauto.
 Qed.
 
@@ -307,6 +299,8 @@ Lemma step_mono cf l s s' : Inv cf s -> step cf l s = Ok s' -> mono s s'.
 Proof.
   intros I H. destruct l; cbn [step] in H.
   - unfold g_reserve in H. destruct (st_g s); try (inversion H; subst; apply mono_refl).
+    unfold res_try_reserve in H. destruct (ctl_capacity (st_ctl s) =? 0); cbn [obind] in H.
+    { inversion H; subst. destruct (prebuild cf); repeat split; cbn; auto. }
     unfold ctl_try_reserve in H. destruct (chead (st_ctl s)) as [h|]; cbn in H.
     + destruct (nth_error (cslots (st_ctl s)) h) as [sl|] eqn:En; cbn in H; [|discriminate].
       apply (nth_error_nth_d _ _ _ dC) in En as [Hh Esl]. inversion H; subst; clear H.
@@ -329,11 +323,11 @@ Proof.
       try (unfold a_remove in H; rewrite Ea, ?Ef in H; inversion H; subst; repeat split; cbn; auto; fail).
     destruct (a_remove_spec _ _ _ _ I Ea Ef) as (Hidx & p & _ & _ & E). rewrite E in H.
     inversion H; subst; clear H.
-    destruct (selfref cf && ring_is_full (cap cf) (st_unused s)); [repeat split; cbn; auto|].
+    destruct (selfref cf && ring_is_full (unused_cap cf) (st_unused s)); [repeat split; cbn; auto|].
     destruct (is_marked s p); [|repeat split; cbn; auto].
     repeat split; cbn; auto. intro i. apply nth_upd_cgen_le. cbn. lia.
   - unfold a_push in H. destruct (st_inflight s); [|inversion H; subst; apply mono_refl].
-    destruct (ring_push (cap cf) (st_unused s) n); inversion H; subst. repeat split; cbn; auto.
+    destruct (ring_push (unused_cap cf) (st_unused s) n); inversion H; subst. repeat split; cbn; auto.
   - destruct (st_a s) eqn:Ea;
       try (unfold a_add in H; rewrite Ea in H; inversion H; subst; repeat split; cbn; auto; fail).
     destruct (st_newq s) as [|[k p] rest] eqn:Eq.
@@ -359,15 +353,11 @@ Qed.
 (** ** the statements of Props.v that live at this level *)
 Lemma res_invariant_proof :
   forall (cf : cfg) (sched : list label),
-    1 <= cap cf -> race_free cf sched (init cf) ->
     exists s, run cf sched (init cf) = Ok s /\ Inv cf s /\ QInv cf s.
-Proof. intros cf sched Hc RF. apply run_ok; auto. now apply inv_init. apply qinv_init. Qed.
+Proof. intros cf sched. apply run_ok. apply inv_init. apply qinv_init. Qed.
 
-Lemma res_invariant_core_proof :
-  forall (cf : cfg) (sched : list label) (s : state),
-    1 <= cap cf -> run cf sched (init cf) = Ok s -> Inv cf s.
-Proof. intros cf sched s Hc H. eapply run_inv; eauto. now apply inv_init. Qed.
-
-Lemma capacity_zero_refuted_proof :
-  forall sr pb : bool, run (mkCfg sr pb 0) [G_reserve] (init (mkCfg sr pb 0)) = Panic OutOfBounds.
-Proof. intros [|] [|]; vm_compute; reflexivity. Qed.
+Lemma reach cf sched s : run cf sched (init cf) = Ok s -> Inv cf s /\ QInv cf s.
+Proof.
+  intro H. destruct (res_invariant_proof cf sched) as (s' & E & I & Q). rewrite H in E.
+  inversion E; subst. auto.
+Qed.
